@@ -1,6 +1,7 @@
 package props
 
 import (
+	"fmt"
 	"testing"
 
 	"pgregory.net/rapid"
@@ -9,6 +10,7 @@ import (
 	"github.com/openfga/openfga/verifharness/gen"
 	"github.com/openfga/openfga/verifharness/m"
 	"github.com/openfga/openfga/verifharness/refsem"
+	"github.com/openfga/openfga/verifharness/semkit"
 )
 
 // ---- C09: iterator caches never change answers ------------------------------
@@ -48,6 +50,14 @@ func genC09(t *rapid.T) CacheCase {
 			prev = append(prev, r)
 			c.Ops = append(c.Ops, QOp{Kind: "check", Req: r})
 		case k < 9:
+			if rapid.Bool().Draw(t, "deadlinePair") {
+				// a burst in which one copy runs out of time inside a slow read the others share
+				r := closureRequest(t, w, o, prev)
+				prev = append(prev, r)
+				c.Ops = append(c.Ops, QOp{Kind: "check", Req: r, Burst: rapid.IntRange(2, 4).Draw(t, "burst"),
+					DeadlineUs: rapid.IntRange(100, 4000).Draw(t, "deadlineUs"), SlowUs: rapid.IntRange(20, 300).Draw(t, "slowUs")}, QOp{Kind: "check", Req: r})
+				break
+			}
 			c.Ops = append(c.Ops, QOp{Kind: "list", LO: genLORequest(t, w, o)})
 		default:
 			c.Ops = append(c.Ops, QOp{Kind: "yield"})
@@ -76,9 +86,101 @@ type C10Case struct {
 	CacheCase
 }
 
+// genC10Links: the writes are chosen, with the reference evaluator, among the link tuples (a new or
+// removed parent / member userset of the requested object) that flip the request's answer; the
+// check iterator cache is on, because an object's own links are what it caches.
+func genC10Links(t *rapid.T, o gen.Opts) CacheCase {
+	w := gen.CycleWorld(t, o)
+	c := CacheCase{World: w, Cfg: genCacheCfg(t, false, false)}
+	c.Cfg.CheckIter = true
+	tn := gen.CycleType(w)
+	td := w.Model.Type(tn)
+	cur := gen.World{Model: w.Model, Tuples: append([]m.Tuple{}, w.Tuples...), Left: w.Left}
+	type cand struct {
+		req m.Request
+		tu  m.Tuple
+		del bool
+	}
+	for round, n := 0, rapid.IntRange(1, 3).Draw(t, "nRounds"); round < n; round++ {
+		var flips, all []cand
+		for i := 0; i < o.MaxIDs; i++ {
+			obj := fmt.Sprintf("%s:%d", tn, i)
+			var links []cand
+			for _, rel := range td.Relations {
+				if !rel.Rewrite.HasThis() {
+					continue
+				}
+				for _, re := range rel.Restr {
+					if re.Type == "user" || re.Wildcard || re.Cond != "" {
+						continue
+					}
+					for j := 0; j < o.MaxIDs; j++ {
+						u := fmt.Sprintf("%s:%d", re.Type, j)
+						if re.Rel != "" {
+							u += "#" + re.Rel
+						}
+						tu := m.Tuple{Object: obj, Relation: rel.Name, User: u}
+						if u == obj+"#"+rel.Name {
+							continue
+						}
+						present := false
+						for _, x := range cur.Tuples {
+							present = present || x.Key() == tu.Key()
+						}
+						links = append(links, cand{tu: tu, del: present})
+					}
+				}
+			}
+			for _, rel := range td.Relations {
+				req := m.Request{Object: obj, Relation: rel.Name, User: "user:0"}
+				before, _ := semkit.RefCheck(cur, req)
+				for _, l := range links {
+					l.req = req
+					all = append(all, l)
+					next := gen.World{Model: cur.Model, Tuples: append([]m.Tuple{}, cur.Tuples...), Left: cur.Left}
+					applyWrite(&next, map[bool]string{true: "delete", false: "write"}[l.del], []m.Tuple{l.tu})
+					if after, _ := semkit.RefCheck(next, req); after != before {
+						flips = append(flips, l)
+					}
+				}
+			}
+		}
+		pick := flips
+		if len(pick) == 0 {
+			pick = all
+		}
+		if len(pick) == 0 {
+			break
+		}
+		ch := pick[rapid.IntRange(0, len(pick)-1).Draw(t, "flip")]
+		c.Ops = append(c.Ops, QOp{Kind: "check", Req: ch.req})
+		if rapid.Bool().Draw(t, "populateTwice") {
+			c.Ops = append(c.Ops, QOp{Kind: "yield"}, QOp{Kind: "check", Req: ch.req})
+		}
+		kind := map[bool]string{true: "delete", false: "write"}[ch.del]
+		c.Ops = append(c.Ops, QOp{Kind: kind, Tuples: []m.Tuple{ch.tu}})
+		applyWrite(&cur, kind, []m.Tuple{ch.tu})
+		c.Ops = append(c.Ops, QOp{Kind: "check", Req: ch.req, HC: true})
+		if rapid.Bool().Draw(t, "batchHC") {
+			c.Ops = append(c.Ops, QOp{Kind: "batch", Req: ch.req, HC: true})
+		}
+	}
+	return c
+}
+
 func genC10(t *rapid.T) CacheCase {
 	o := worldOpts()
-	w := gen.AnyWorld(t, o)
+	if rapid.IntRange(0, 3).Draw(t, "linkScenario") == 0 {
+		if c := genC10Links(t, o); len(c.Ops) > 0 {
+			return c
+		}
+	}
+	var w gen.World
+	if rapid.Bool().Draw(t, "cyclic") {
+		w = gen.CycleWorld(t, o) // recursive relations over densely linked objects: a new link often changes the answer
+	} else {
+		w = gen.AnyWorld(t, o)
+	}
 	c := CacheCase{World: w, Cfg: genCacheCfg(t, false, false)}
 	c.Cfg.Controller = rapid.Bool().Draw(t, "controller")
 	cur := append([]m.Tuple{}, w.Tuples...)
@@ -92,8 +194,41 @@ func genC10(t *rapid.T) CacheCase {
 			ot, _ := m.SplitObject(r.Object)
 			c.Ops = append(c.Ops, QOp{Kind: "list", LO: loFromRequest(ot, r)})
 		}
+		if rapid.Bool().Draw(t, "yieldAfterPopulate") {
+			c.Ops = append(c.Ops, QOp{Kind: "yield"}) // lets background cache fills of the requests above finish
+		}
 		// a write that tends to flip the answer: grant the request directly, or delete a tuple
 		g := m.Tuple{Object: r.Object, Relation: r.Relation, User: r.User}
+		if rapid.Bool().Draw(t, "indirectWrite") {
+			// ... or link the object to another one (a new parent / member userset): the answer then changes
+			// through reads of the object's own tuples that an earlier request may have left in an iterator cache
+			ot, _ := m.SplitObject(r.Object)
+			var links []m.Tuple
+			if td := w.Model.Type(ot); td != nil {
+				for _, rel := range td.Relations {
+					if !rel.Rewrite.HasThis() {
+						continue
+					}
+					for _, re := range rel.Restr {
+						if re.Type == "user" || re.Wildcard || re.Cond != "" {
+							continue
+						}
+						for i := 0; i < o.MaxIDs; i++ {
+							u := fmt.Sprintf("%s:%d", re.Type, i)
+							if re.Rel != "" {
+								u += "#" + re.Rel
+							}
+							if u != r.Object+"#"+rel.Name {
+								links = append(links, m.Tuple{Object: r.Object, Relation: rel.Name, User: u})
+							}
+						}
+					}
+				}
+			}
+			if len(links) > 0 {
+				g = links[rapid.IntRange(0, len(links)-1).Draw(t, "link")]
+			}
+		}
 		exists := -1
 		for j, tu := range cur {
 			if tu.Key() == g.Key() {
